@@ -167,6 +167,10 @@ def run(ck, ctx):
 
     # ---------------------------------------------------------------- R14.4 header keywords
     def r144():
+        if not CG.meta:
+            # not one header value is seen below compute(): the driver is written in a way the value graph cannot follow
+            # (stages dispatched through run-time tables, ...) - nothing is decided about it, in either direction
+            raise AnalysisError("no header keyword is written below compute() in the modelled paths")
         for ch, keys in CH_KEYS.items():
             en = OPT_EN if ch == "optical" else RAD_EN
             found = {k for k, lst in CG.meta.items() for v, e in lst if under(e, en)}
@@ -180,6 +184,8 @@ def run(ck, ctx):
     # ---------------------------------------------------------------- R14.5 wiring
     def r145():
         n = 0
+        if not any(CG.calls(callee_) for callee_, _p, _c in WIRING):
+            raise AnalysisError("none of the stage calls is reached from compute() in the modelled paths")
         for callee, param, col in WIRING:
             cs = CG.calls(callee)
             if not cs:
@@ -293,6 +299,8 @@ def run(ck, ctx):
     # ---------------------------------------------------------------- R14.7 channel isolation
     def r147():
         dep = Dep(I)
+        if not CG.columns:
+            raise AnalysisError("no column store is reached from compute() in the modelled paths")
         for ch, other, en, oen in (("optical", "radio", OPT_EN, RAD_EN), ("radio", "optical", RAD_EN, OPT_EN)):
             cols = {n for n, lst in CG.columns.items() for v, e in lst if under(e, en)}
             ck.ob("R14.7", f"columns written under the {ch} switch are {sorted(CH_COLS[ch])}", cols == CH_COLS[ch],
